@@ -2,6 +2,7 @@
 from lib import *
 from hist import *
 from fsgen import *
+from c05 import single_elem
 
 RULE = ("forests over the hostile name alphabet ('.', '..', 'a/b', '/abs', 'a/', '../x', '../../esc', 255/256-byte names, invalid "
         "UTF-8, NUL) at every node position x {From-Markdown, From-Root, deprecated} x {dry-run, real} x {simple, massive} x "
@@ -57,7 +58,20 @@ def run(ck, rng):
             flat = merged_items(items)[0]
             # other From-Root calls on the same tree first (they do not validate names): the mkdir that follows must still validate
             before_ops = rng.choice([[], [], ["O,0,d,0,-,-,-,-,-"], ["W,0,-,-,-,-,-"], ["I,0,-,-,-,-,-"], ["O,0,j,0,-,-,-,-,-", "W,0,-,-,-,-,-"]])
-            op = ";".join(canonical_build(flat) + before_ops + ["%s,0,%s,%s,%s,-,-,-,-" % ("M" if vname == "root" else "Md", dry, exts_plus(exts), hx(target))])
+            build_items, late_add = flat, []
+            deep = [i_ for i_, (d_, _) in enumerate(flat) if d_ >= 2]
+            if deep and rng.random() < 0.25 and all(single_elem(n_) for _, n_ in flat):
+                # a VALIDATING call that succeeds first (dry run / verify / dry-run output), then a hostile name is added
+                # below a NON-root node, then the mkdir: it must validate again
+                par = rng.choice(deep)
+                bad_nm = rng.choice([b"../../../escaped", b"..", b"a/b", b"/abs"])
+                before_ops = before_ops + [rng.choice(["M,0,1,-,%s,-,-,-,-" % hx(target), "V,0,0,%s" % hx(target), "O,0,d,1,-,-,-,-,-"])]
+                late_add = ["A,%d,%s" % (par, hx(bad_nm))]       # handle index = pre-order index (canonical_build)
+                pd, j_ = flat[par][0], par + 1
+                while j_ < len(flat) and flat[j_][0] > pd:
+                    j_ += 1
+                flat = flat[:j_] + [(pd + 1, bad_nm)] + flat[j_:]     # the tree the mkdir sees
+            op = ";".join(canonical_build(build_items) + before_ops + late_add + ["%s,0,%s,%s,%s,-,-,-,-" % ("M" if vname == "root" else "Md", dry, exts_plus(exts), hx(target))])
             if rng.random() < 0.2:
                 op += "," + rng.choice("jyt")
         cases.append(("mhist " if massive else "hist ") + "F,%s;%s" % (snap_arg(pre), op))
